@@ -91,8 +91,7 @@ def exec_B(case, tape=None):
     auxs = [[S.build_aux(s, lazy=False) for s in seq] for seq in scns]
     # sequential references (warm wrappers), on the same shared object
     refs = []
-    with warnings.catch_warnings():
-        warnings.simplefilter("ignore")
+    if True:  # warnings are silenced process-wide (catch_warnings is not thread-safe)
         for seq, aseq in zip(scns, auxs):
             r = []
             for s, a in zip(seq, aseq):
@@ -127,8 +126,7 @@ def exec_B(case, tape=None):
                 if inside[0] > 1:
                     sim.probe("caller_threads_interleaved_in_accessor")
                 try:
-                    with warnings.catch_warnings():
-                        warnings.simplefilter("ignore")
+                    if True:  # warnings are silenced process-wide (catch_warnings is not thread-safe)
                         results[ti][ci] = (S.normalise(S.apply_op(s, cube, lazy=False, aux=a)), None)
                 except (StepLimit, HarnessInconclusive, Deadlock):
                     raise
@@ -155,7 +153,9 @@ def exec_B(case, tape=None):
             sim.join(ths)
 
         sim.run(body)
-    except (StepLimit, HarnessInconclusive) as e:
+    except StepLimit:
+        rr.outcome = "step-cap"
+    except HarnessInconclusive as e:
         rr.harness = _exc_str(e)
     except Deadlock as e:
         rr.violations.append(("deadlock", str(e)))
@@ -174,12 +174,12 @@ def exec_B(case, tape=None):
     rr.counters["cold_compiles"] = stats.compiles
     rr.counters["cold_concurrent_compiles"] = stats.concurrent_compiles
     for t in sim.threads.values():
-        if t.exc is not None and not isinstance(t.exc, (StepLimit, HarnessInconclusive, Deadlock)):
+        if rr.outcome != "step-cap" and t.exc is not None and not isinstance(t.exc, (StepLimit, HarnessInconclusive, Deadlock)):
             rr.harness = "thread died: " + _exc_str(t.exc)
     if rr.harness:
         rr.outcome = "harness"
         return rr
-    if rr.violations:
+    if rr.violations or rr.outcome == "step-cap":
         return rr
     after = S.input_digests(watch)
     for k in before:
